@@ -215,6 +215,10 @@ struct RSample<S: Service, F: Flavor> {
     tag: Tag,
     /// the model still counts the sample as a reference (canary checks apply)
     live: bool,
+    /// payload address and length as seen when the sample was received (`Sample::payload()` itself reads
+    /// the chunk header in shared memory, so the probe for "still mapped" must not go through it)
+    addr: usize,
+    len: usize,
     sample: Sample<S, F::P, ()>,
 }
 
@@ -698,7 +702,11 @@ impl<S: Service, F: Flavor> Interp<S, F> {
                         );
                         let n = if F::SLICE { want.len() } else { 1 };
                         ensure!(x.header().number_of_elements() as usize == n, "recv.number_of_elements", "step {step}: header reports {} elements, expected {n}", x.header().number_of_elements());
-                        self.samples.push(RSample { sub: sid, tag: t, live: true, sample: x });
+                        let (addr, len) = {
+                            let b = F::sample_bytes::<S>(&x);
+                            (b.as_ptr() as usize, b.len())
+                        };
+                        self.samples.push(RSample { sub: sid, tag: t, live: true, addr, len, sample: x });
                     }
                     true
                 }
@@ -812,6 +820,17 @@ impl<S: Service, F: Flavor> Interp<S, F> {
         for x in &self.samples {
             if x.live {
                 let want = &self.tags[&x.tag].bytes;
+                // the payload and the chunk header that `payload()` reads (its address is computed, not read)
+                let hdr = x.sample.header() as *const _ as usize;
+                ensure!(
+                    vcore::util::mapped(x.addr, x.len) && vcore::util::mapped(hdr, 32),
+                    "canary.sample_unmapped",
+                    "step {step}: the memory of held sample {:?} of subscriber {} [{:#x}, +{}) is not mapped any more",
+                    x.tag,
+                    x.sub,
+                    x.addr,
+                    x.len
+                );
                 let rb = F::sample_bytes::<S>(&x.sample);
                 ensure!(
                     rb == &want[..],
